@@ -36,6 +36,9 @@ CHECKS = {
  "C06": (EX, "small-scope exhaustive enumeration of the C05 kriging space restricted to zero measurement error, evaluated at the conditioning locations, plus every way of duplicating one or two conditioning points of every layout",
          "For every enumerated set-up (variants x models x coordinate configurations x layouts x nugget-free / exact mode x mean-trend-normalizer x pseudo-inverse type) the field and variance at the conditioning points, the sign of the unclipped reference variance, the simple-kriging bound by the sill and the equality with the clipped reference variance are checked; duplicated layouts (all single and pair duplications with different values, pinv and pinvh) are compared with the de-duplicated layout carrying the mean value.",
          "conditioning sets of at most 5 (+2 duplicated) points; singular de-duplicated systems skipped by a counted guard; duplicates only for nugget-free systems (with a nugget the system is regular and coincident points are separate noisy measurements)", "5/C06"),
+ "C08": (EX, "small-scope exhaustive enumeration of point multisets, field assignments (incl. NaN), bin-edge subsets, direction sets / tolerances / bandwidths and grid masks against an O(n^2) pair-enumeration oracle; counts compared exactly",
+         "All multisets of up to 4 points of a small lattice (duplicates, collinear, equal distances; ordered tuples for the smallest sizes), every value assignment from {0,1,3.5,NaN}, every increasing edge subset of an alphabet whose members coincide with pair distances (half-open bin semantics decided on exact hits), both estimators; lat-lon sets with poles, date line and antipodes against the atan2 great-circle formula; all direction sets of size 1-3 incl. an obtuse pair x 4 tolerances x 3 bandwidths, overlapping and separated search, kernel level and through vario_estimate; every small grid x mask pattern x missing-value encoding for the along-axis estimator.",
+         "points on small lattices, at most 4 (5) points; cases inside the 1e-9 guard band of a decision boundary skipped (counted)", "5/C08"),
 }
 PENDING = {}
 def main():
